@@ -8,6 +8,7 @@ from .._change import Replace
 from .._global_state import state
 from .._sentinels import undefined
 from .._unmanaged import Unmanaged
+from .._utils import normalize
 from .._utils import value_to_token
 from .generic_value import GenericValue
 from .generic_value import clone
@@ -68,7 +69,8 @@ class CollectionValue(GenericValue):
 
             if (
                 old_node is not None
-                and self._file._token_of_node(old_node) != new_token
+                # the tokens of the node are normalized (trailing commas like in `(1,)`)
+                and self._file._token_of_node(old_node) != list(normalize(new_token))
             ):
                 new_code = self._file._token_to_code(new_token)
 
